@@ -1,39 +1,9 @@
 (** General lemmas of the static shear tie (hand-written, copied into the per-run directory; logical path
-    CijGen): index combinatorics of the 81 tuples, "a left fold with += / .append over the guarded tuples is
+    CijGen; independent of the generated files): "a left fold with += / .append over the guarded 81 tuples is
     the model's sum / list", and extensionality of the model's energy in the strain entries. *)
 From Coq Require Import Reals List Bool Arith ZArith Lia Lra.
 From Cij Require Import Ops ROps VoigtBase Voigt ShearModel.
-From CijGen Require Import Gen_voigt ShearTieBase.
 Import ListNotations.
-
-(* ------------------------------------------------------------------------------------------------ *)
-(** * index combinatorics (finite, decided by vm_compute, bounds in the statements) *)
-
-Lemma In_idx81 i j k l : In (i, j, k, l) idx81 -> (i < 3 /\ j < 3 /\ k < 3 /\ l < 3)%nat.
-Proof.
-  assert (H : forallb (fun t => let '(i, j, k, l) := t in
-                (i <? 3)%nat && (j <? 3)%nat && (k <? 3)%nat && (l <? 3)%nat) idx81 = true)
-    by (vm_compute; reflexivity).
-  intros Hin. rewrite forallb_forall in H. specialize (H _ Hin). cbn beta iota in H.
-  rewrite !andb_true_iff, !Nat.ltb_lt in H. tauto.
-Qed.
-
-(** the canonical key the code builds, c_(i+1, j+1, k+1, l+1) through the REGENERATED voigt model, is the
-    static model's [canon4] on all 81 tuples *)
-Lemma gen_c4_canon4 i j k l : (i < 3)%nat -> (j < 3)%nat -> (k < 3)%nat -> (l < 3)%nat ->
-  gen_c4 (Z.of_nat i + 1) (Z.of_nat j + 1) (Z.of_nat k + 1) (Z.of_nat l + 1) = canon4 i j k l.
-Proof.
-  assert (H : forallb (fun i => forallb (fun j => forallb (fun k => forallb (fun l =>
-                vkey_eqb (gen_c4 (Z.of_nat i + 1) (Z.of_nat j + 1) (Z.of_nat k + 1) (Z.of_nat l + 1))
-                         (canon4 i j k l)) idx3) idx3) idx3) idx3 = true) by (vm_compute; reflexivity).
-  intros Hi Hj Hk Hl.
-  assert (In3 : forall n, (n < 3)%nat -> In n idx3) by (intros n Hn; unfold idx3; cbn [In]; lia).
-  rewrite forallb_forall in H. specialize (H i (In3 i Hi)).
-  rewrite forallb_forall in H. specialize (H j (In3 j Hj)).
-  rewrite forallb_forall in H. specialize (H k (In3 k Hk)).
-  rewrite forallb_forall in H. specialize (H l (In3 l Hl)).
-  apply vkey_eqb_eq, H.
-Qed.
 
 Lemma shear_keys_all k : In k shear_keys -> In k all_keys.
 Proof. unfold shear_keys. intros H. apply filter_In in H. tauto. Qed.
